@@ -48,7 +48,7 @@ ALLOWED_WRITERS = {
     "compoResumable": {("C_", "deepEnter"), ("C_", "deepReenter"), ("C_", "deepExit"), ("C_", "deepChangeToRequested"),
                        ("C_", "deepLoadRequested"), ("C_", "deepLoadResumable"),
                        ("RegistryT", "requestScheduled"), ("RegistryT", "clear"), ("R_", "load"), ("RV_", "loadEnter")},
-    "compoRemains": {("RegistryT", "requestImmediate"), ("RegistryT", "clearRequests")},
+    "compoRemains": {("RegistryT", "requestImmediate"), ("RegistryT", "clearRequests"), ("RegistryT", "restore")},
     "orthoRequested": {("O_", "deepEnter"), ("O_", "deepReenter"), ("O_", "orthoRequested"), ("RegistryT", "requestImmediate"), ("RegistryT", "requestedOrthoFork"),
                        ("RegistryT", "clearRequests"), ("RegistryT", "restore"), ("OS_", "wideLoadRequested"), ("O_", "deepLoadRequested")},
 }
